@@ -119,6 +119,47 @@ def decorator_fence(program: Program, deco: str, module) -> set[str] | None:
     return fence_of(w, w.args.args[1].arg, wrapped, consts=_const_resolver(program, f.module))
 
 
+def _unpicklable_value(program: Program, c, f, v, depth: int = 0):
+    """description if the expression evaluates to an object pickle / deepcopy refuse: a dict view, an iterator, a generator
+    -- directly, inside a list / tuple display or `+` concatenation, or as what a helper of the package returns"""
+    if depth > 3:
+        return None
+    if isinstance(v, ast.Call) and isinstance(v.func, ast.Attribute) and v.func.attr in ("values", "keys", "items") and not v.args:
+        return f"a dict view (`{ast.unparse(v)[:40]}`)"
+    if isinstance(v, ast.Call) and isinstance(v.func, ast.Name) and v.func.id in ("iter", "map", "filter", "zip", "reversed", "enumerate"):
+        return f"a {v.func.id}() iterator"
+    if isinstance(v, ast.GeneratorExp):
+        return "a generator"
+    if isinstance(v, (ast.List, ast.Tuple, ast.Set)):
+        for e in v.elts:
+            r = _unpicklable_value(program, c, f, e, depth + 1)
+            if r:
+                return r
+        return None
+    if isinstance(v, ast.BinOp) and isinstance(v.op, ast.Add):
+        return _unpicklable_value(program, c, f, v.left, depth + 1) or _unpicklable_value(program, c, f, v.right, depth + 1)
+    if isinstance(v, ast.IfExp):
+        return _unpicklable_value(program, c, f, v.body, depth + 1) or _unpicklable_value(program, c, f, v.orelse, depth + 1)
+    if isinstance(v, ast.Call):
+        g = None
+        fn = v.func
+        if isinstance(fn, ast.Attribute) and isinstance(fn.value, ast.Name) and (fn.value.id == (f.params[0] if f.params else None) or program.find_cls(fn.value.id) is not None):
+            k = c if fn.value.id == (f.params[0] if f.params else None) else program.find_cls(fn.value.id)
+            g = k.resolve(fn.attr) if k is not None else None
+        elif isinstance(fn, ast.Name):
+            r = program.resolve_global(f.module, fn.id)
+            g = r[1] if r and r[0] == "func" else None
+        if g is not None and not g.is_builder:
+            if any(isinstance(n, (ast.Yield, ast.YieldFrom)) for n in ast.walk(g.node)):
+                return f"a generator (what {g.qualname} returns)"
+            for n in ast.walk(g.node):
+                if isinstance(n, ast.Return) and n.value is not None:
+                    r = _unpicklable_value(program, g.cls or c, g, n.value, depth + 1)
+                    if r:
+                        return f"{r}, returned by {g.qualname}"
+    return None
+
+
 def check(program: Program, run: Run) -> None:
     run.explanation = (
         "Structural protocol check: every dynamic-lookup hook (__getattr__) in the live class table must raise "
@@ -237,6 +278,8 @@ def check(program: Program, run: Run) -> None:
                                 bad = "an instance of a locally defined class"     # (the *result* of calling a local function is ordinary data)
                             elif isinstance(v, ast.Call) and isinstance(v.func, ast.Name) and v.func.id in ("iter", "map", "filter", "zip", "open"):
                                 bad = f"an unpicklable {v.func.id}() object"
+                            else:
+                                bad = _unpicklable_value(program, c, f, v)
                             run.ob("C15/R3 instance attribute holds picklable data", f"{f.qualname}:{t.attr}", bad is None, where=f.loc(n), nontrivial=False)
                             if bad:
                                 run.finding(f"C15/unpicklable-attr:{c.qualname}.{t.attr}", f"{f.qualname} stores {bad} in self.{t.attr}: pickle/deepcopy of the object fails",
